@@ -75,3 +75,6 @@ def run(ctx):
         if x.get("summary"):
             continue
         ctx.violation("adv:%s:%s" % (x["kind"], x.get("key", "")), "adversarial DNS input (%s): %s" % (x["kind"], x["diff"][:400]), x)
+    # (f) the way every response body reaches the decoder: spec/Doh.tla (status x framing x body; size bound, no panic)
+    import c14
+    c14.doh_stage(ctx)
